@@ -844,6 +844,9 @@ def case_tree(ctx, rng, tier, klass):
     # intermediate derivatives are O(1) even where the total derivative cancels: the rounding of the
     # step-wise evaluation scales with them, not with the (possibly vanishing) total gradient
     scale = (dense.delta_scale(snaps_u, g_u) + dense.delta_scale(snaps_u, [1.0] * len(g_u))) * wmax * tree_size(t)
+    # floor for the comparison of covariance-input gradients: a total derivative that cancels to ~1e-100
+    # must not turn rounding into a verdict
+    gfl = max([0.0] + [float(np.max(np.abs(c[1]))) for sn_ in snaps_u for c in sn_['cov'].values() if c[1].size]) * (1.0 + max(abs(x) for x in g_u))
     ctx.count('L3_trees')
     ctx.cell('L3', klass, 'depth%d' % depth)
     # (a) step by step
@@ -852,11 +855,11 @@ def case_tree(ctx, rng, tier, klass):
     if not is_obs(a):
         raise Skip()
     rv = None  # replica means of stepwise evaluation: f(replica means) as well
-    compare_obs(ctx, a, ref, 'L3:stepwise', scale=scale, rtol=1e-10, vtol=1e-11, what=klass, rv_tol=1e-10)
+    compare_obs(ctx, a, ref, 'L3:stepwise', scale=scale, rtol=1e-10, vtol=1e-11, what=klass, rv_tol=1e-10, grad_floor=gfl)
     # (b) re-associated
     t2 = reassociate(rng, t)
     b = ev_generic(t2, leaves, olib)
-    compare_obs(ctx, b, ref, 'L3:reassociated', scale=scale, rtol=1e-10, vtol=1e-11, what=klass, rv_tol=1e-10)
+    compare_obs(ctx, b, ref, 'L3:reassociated', scale=scale, rtol=1e-10, vtol=1e-11, what=klass, rv_tol=1e-10, grad_floor=gfl)
     # (c) one derived_observable call with autograd, (d) with numerical gradient
     alib = _obs_lib(anp)
     ul = [leaves[i] for i in used]
@@ -867,10 +870,10 @@ def case_tree(ctx, rng, tier, klass):
             full[i] = x[k]
         return ev_generic(t, full, alib)
     c = PE.derived_observable(func, ul)
-    compare_obs(ctx, c, ref, 'L3:one-call-autograd', scale=scale, rtol=1e-10, vtol=1e-11, what=klass, rv_tol=1e-10)
+    compare_obs(ctx, c, ref, 'L3:one-call-autograd', scale=scale, rtol=1e-10, vtol=1e-11, what=klass, rv_tol=1e-10, grad_floor=gfl)
     if rng.random() < 0.5:
         dd = PE.derived_observable(func, ul, num_grad=True)
-        compare_obs(ctx, dd, ref, 'L3:one-call-num_grad', scale=scale, rtol=1e-6, vtol=1e-11, what=klass, rv_tol=1e-10)
+        compare_obs(ctx, dd, ref, 'L3:one-call-num_grad', scale=scale, rtol=1e-6, vtol=1e-11, what=klass, rv_tol=1e-10, grad_floor=gfl)
     if any(np.any(s['chains'][cn][1] != 0) for s in snaps_u for cn in s['chains']) and tree_size(t) >= 3:
         ctx.nontrivial.add(digest('L3', repr(t), [s['value'] for s in snaps_u]))
     ctx.sample({'tree': repr(t)[:300], 'class': klass, 'leaves': [l.names for l in leaves]})
